@@ -110,6 +110,10 @@ LSOLVE_CORPUS = [
     # exactly singular (rank 5); elimination on doubles is left with a last pivot of rounding size, above EPSILON
     ([[-4, 4, 3, -3, 3, 1], [-1, -4, 1, -3, -4, -4], [-1, 0, 3, 2, 0, 0], [0, 0, 2, 0, -4, 0], [0, 4, -4, -1, 4, 4], [1, -2, 1, 0, 3, -4]],
      [1, 1, 0, 1, 5, -2]),
+    # exactly singular, elimination on doubles ends with a last pivot of rounding size *below* EPSILON (or exactly zero): refused
+    ([[1, 2, 3], [4, 5, 6], [7, 8, 9]], [1, 0, 0]),
+    ([[3, 1, 7], [2, 6, 3], [5, 7, 10]], [1, 0, 0]),
+    ([[1, 2, 3, 4], [2, 3, 1, 5], [4, 1, 2, 2], [-1, -1, 2, -1]], [1, 1, 1, 1]),
 ]
 
 
@@ -133,7 +137,15 @@ def run(ctx, drv):
             kind = rng.choice(["dense", "integer", "diagonal", "nearly-singular", "pivot-pattern", "integer"])
             Amat = gen_matrix(rng, n, kind)
             if kind == "integer" and rng.random() < 0.3 and n >= 2:
-                Amat[-1] = [a * 2 for a in Amat[0]]          # exactly singular
+                how = rng.choice(["double", "sum", "difference", "combination"]) if n >= 3 else "double"
+                if how == "double":
+                    Amat[-1] = [a * 2 for a in Amat[0]]          # exactly singular, eliminates to an exact zero row
+                elif how == "sum":
+                    Amat[-1] = [a + c for a, c in zip(Amat[0], Amat[1])]      # exactly singular; on doubles the last pivot is rounding residue
+                elif how == "difference":
+                    Amat[-1] = [a - c for a, c in zip(Amat[0], Amat[1])]
+                else:
+                    Amat[-1] = [3 * a - 2 * c + d for a, c, d in zip(Amat[0], Amat[1], Amat[2])] if n >= 4 else [3 * a - 2 * c for a, c in zip(Amat[0], Amat[1])]
             b = [float(rng.randrange(-5, 6)) if kind == "integer" else rng.uniform(-2, 2) for _ in range(n)]
             if rng.random() < 0.08:
                 b = [0.0] * n                           # homogeneous system: x = 0 for a regular A, singularity for a singular one
